@@ -9,6 +9,7 @@ PROPS = {
     "C08": {"modules": ["contracts.stream", "contracts.vhd", "contracts.vhdx", "contracts.vmdk", "contracts.vdi", "contracts.hdd", "contracts.c08"], "level": "proof", "bounded_from": ["contracts.c08"],
             "technique": TECH + "; AlignedStream verified from the installed source against the L-stream contract each _read is proved to satisfy; frame obligations for history independence"},
     "C09": {"modules": ["contracts.effects_c09"], "level": "proof", "technique": "contract-based frame/effect obligations per call site over the whole package, discharged by set inclusion (no solver); audit-hook run as bounded cross-check"},
+    "C20": {"modules": ["contracts.vmtar"], "level": "proof", "technique": TECH + "; stdlib tarfile assumed"},
     "C19": {"modules": ["contracts.xml_c19"], "level": "proof", "technique": "contract-based frame obligations on every XML parser entry point (callee resolves to defusedxml.ElementTree.fromstring), assumed defusedxml contract cross-checked by a bounded corpus"},
     "C01": {"modules": ["contracts.qcow2"], "level": "proof", "technique": TECH + "; complete case split over cluster_bits 9..21 x extended L2"},
     "C02": {"modules": ["contracts.vmdk"], "level": "proof", "technique": TECH},
